@@ -1,9 +1,12 @@
 package main
 
 import (
+	"flag"
 	"go/ast"
 	"go/constant"
 	"go/types"
+	"os"
+	"path/filepath"
 	"strings"
 )
 
@@ -11,6 +14,9 @@ func init() { extractors["C15"] = extractC15 }
 
 // qnet/rpc.go, packet/packet.go, codes/code.go: time-to-live, the two codes the completion path uses,
 // how Errno reads the code, whether makeCall skips outstanding sequence numbers, the counter width, the skeleton.
+// Every function is matched, and its skeleton printed, in its alpha-normalised form (`normalise`, c07.go: receiver _r,
+// parameters _p0, _p1, … by position, locals _v0, _v1, … by order of declaration), so the names chosen for a receiver,
+// a parameter or a local do not matter; fields, methods, constants and packages are matched by their own names.
 func extractC15(repo string, o *Out) {
 	qp, err := load(repo, "qnet")
 	if err != nil {
@@ -33,6 +39,7 @@ func extractC15(repo string, o *Out) {
 	if fd := qp.Func("RpcClient", "makeCall"); fd == nil {
 		o.problem("method RpcClient.makeCall not found")
 	} else {
+		restore := qp.normalise(fd)
 		found := false
 		ast.Inspect(fd, func(n ast.Node) bool {
 			c, ok := n.(*ast.CallExpr)
@@ -59,7 +66,7 @@ func extractC15(repo string, o *Out) {
 			ast.Inspect(f, func(m ast.Node) bool {
 				if is, ok := m.(*ast.IfStmt); ok {
 					src := qp.Src(is.Cond)
-					if strings.Contains(src, "!= 0") && strings.Contains(src, "c.pendingCtx[") && strings.Contains(src, "== nil") {
+					if strings.Contains(src, "!= 0") && strings.Contains(src, "_r.pendingCtx[") && strings.Contains(src, "== nil") {
 						skips = true
 					}
 				}
@@ -67,6 +74,7 @@ func extractC15(repo string, o *Out) {
 			})
 			return true
 		})
+		restore()
 	}
 	o.nat("ttlNs", ttl, "qnet/rpc.go makeCall: time.Now().Add(...) in nanoseconds")
 	o.nat("timeoutCode", cp.ConstU(o, "RequestTimeout"), "codes/code.go const RequestTimeout")
@@ -76,16 +84,17 @@ func extractC15(repo string, o *Out) {
 	if fd := pp.Func("Packet", "Errno"); fd == nil {
 		o.problem("method Packet.Errno not found")
 	} else {
+		restore := pp.normalise(fd)
 		assertsBody, returnsCmd := false, false
 		ast.Inspect(fd, func(n ast.Node) bool {
 			switch x := n.(type) {
 			case *ast.TypeAssertExpr:
-				if pp.Src(x.X) == "m.Body_" && x.Type != nil && pp.Src(x.Type) == "int64" {
+				if pp.Src(x.X) == "_r.Body_" && x.Type != nil && pp.Src(x.Type) == "int64" {
 					assertsBody = true
 				}
 			case *ast.ReturnStmt:
 				for _, r := range x.Results {
-					if strings.Contains(pp.Src(r), "m.Cmd") {
+					if strings.Contains(pp.Src(r), "_r.Cmd") {
 						returnsCmd = true
 					}
 				}
@@ -93,6 +102,7 @@ func extractC15(repo string, o *Out) {
 			return true
 		})
 		reads = assertsBody && !returnsCmd
+		restore()
 	}
 	o.bool("errnoReadsBody", reads, "packet/packet.go Errno(): reads m.Body_.(int64) and never returns m.Cmd")
 	o.bool("seqSkipsPending", skips, "qnet/rpc.go makeCall: the sequence search tests `!= 0` and `c.pendingCtx[seq] == nil`")
@@ -121,6 +131,7 @@ func extractC15(repo string, o *Out) {
 	if fd := qp.Func("RpcClient", "stripExpired"); fd == nil {
 		o.problem("method RpcClient.stripExpired not found")
 	} else {
+		restore := qp.normalise(fd)
 		good, bad := 0, 0
 		ast.Inspect(fd, func(n ast.Node) bool {
 			as, ok := n.(*ast.AssignStmt)
@@ -128,7 +139,7 @@ func extractC15(repo string, o *Out) {
 				return true
 			}
 			for i, l := range as.Lhs {
-				if qp.Src(l) != "c.expired" || i >= len(as.Rhs) {
+				if qp.Src(l) != "_r.expired" || i >= len(as.Rhs) {
 					continue
 				}
 				switch r := as.Rhs[i].(type) {
@@ -152,12 +163,60 @@ func extractC15(repo string, o *Out) {
 			}
 			return true
 		})
+		restore()
 		fresh = good == 1 && bad == 0
-		if rp := qp.Func("RpcClient", "ReapTimeout"); rp == nil || len(qp.Calls(rp, "c.stripExpired")) != 1 {
-			o.problem("ReapTimeout does not take its batch through exactly one call of c.stripExpired()")
+		if rp := qp.Func("RpcClient", "ReapTimeout"); rp == nil {
+			o.problem("method RpcClient.ReapTimeout not found")
 			fresh = false
+		} else {
+			restore := qp.normalise(rp)
+			if len(qp.Calls(rp, "_r.stripExpired")) != 1 {
+				o.problem("ReapTimeout does not take its batch through exactly one call of c.stripExpired()")
+				fresh = false
+			}
+			restore()
 		}
 	}
 	o.bool("stripFresh", fresh, "qnet/rpc.go stripExpired: c.expired is replaced by a fresh slice (make/nil/literal), the batch handed to ReapTimeout shares no storage with it")
-	c18writeSkeleton(qp, o, "rpc.go", "rpc.txt")
+	c15writeSkeleton(qp, o, "rpc.go", "rpc.txt")
+}
+
+// c15writeSkeleton writes the synchronisation skeleton (syncSkel, c18.go) of every function of one source file to
+// <facts dir>/skeletons/<name>.txt like c18writeSkeleton does, but prints each function from its alpha-normalised
+// declaration: the receiver is _r, the parameters _p0, _p1, … by position, the locals _v0, _v1, … by order of
+// declaration among the locals the function's skeleton mentions. Renaming any of them leaves the skeleton as it is;
+// a lock, channel operation, call or condition that changes does not.
+func c15writeSkeleton(p *Pkg, o *Out, file, name string) {
+	var lines []string
+	found := false
+	for _, f := range p.Files {
+		if filepath.Base(p.Fset.Position(f.Pos()).Filename) != file {
+			continue
+		}
+		found = true
+		for _, d := range f.Decls {
+			if fd, ok := d.(*ast.FuncDecl); ok {
+				restore := p.normalise(fd)
+				sk := syncSkel(p, fd)
+				restore()
+				lines = append(lines, strings.Split(renumberDecl(strings.Join(sk, "\n")), "\n")...)
+			}
+		}
+	}
+	if !found {
+		o.problem("skeleton: file %s not found", file)
+		return
+	}
+	fl := flag.Lookup("facts")
+	if fl == nil || fl.Value.String() == "" {
+		return
+	}
+	dir := filepath.Join(fl.Value.String(), "skeletons")
+	if err := os.MkdirAll(dir, 0o755); err != nil {
+		o.problem("skeleton: %v", err)
+		return
+	}
+	if err := os.WriteFile(filepath.Join(dir, name), []byte(strings.Join(lines, "\n")+"\n"), 0o644); err != nil {
+		o.problem("skeleton: %v", err)
+	}
 }
